@@ -26,13 +26,20 @@ def mc_run(scr, module, cfg, workers=8, timeout=900, expect_violation=None):
     return r
 
 
+_beh_cache = {}
+
+
 def beh_run(scr, module, cfg, timeout=900):
-    r = vlib.tlc(scr, module, cfg, workers=1, timeout=timeout, heap="6g")
+    if (scr.dir, module, cfg) in _beh_cache:
+        return _beh_cache[(scr.dir, module, cfg)]
+    r = vlib.tlc(scr, module, cfg, workers=8, timeout=timeout, heap="6g")
     if r["timeout"] or r["error"] or r["violated"]:
         raise vlib.Inconclusive("TLC behaviour enumeration failed on %s/%s:\n%s" % (module, cfg, r["out"][-2000:]))
     raws = [json.loads(p) for p in vlib.tagged(r["out"], "SCN")]
     if not raws:
         raise vlib.Inconclusive("behaviour enumeration %s produced no scenario" % cfg)
+    raws.sort(key=lambda x: json.dumps(x, sort_keys=True))      # worker scheduling must not change scenario numbering
+    _beh_cache[(scr.dir, module, cfg)] = (r, raws)
     return r, raws
 
 
@@ -144,6 +151,8 @@ def sync_level(scr, tier, prop, prefix, plan, replay_file=None):
                 core = core[:max(1, quota // 4)]
                 scs = vlib.sample(scs, quota, rng, core=core)
             scenarios += scs
+    import time as _t
+    t_replay = _t.time()
     if "pkgs" in plan:
         traces = []
         for kind, pkg in plan["pkgs"].items():
@@ -152,13 +161,17 @@ def sync_level(scr, tier, prop, prefix, plan, replay_file=None):
                 traces += vlib.replay(scr, pkg, part, prop + "-" + kind)
     else:
         traces = vlib.replay(scr, plan["pkg"], scenarios, prop)
+    t_replay = _t.time() - t_replay
+    t_val = _t.time()
     hits, st, tr = vlib.validate_traces(scr, traces)
+    t_val = _t.time() - t_val
     states += st
     trans += tr
-    mine = [h for h in hits if h["name"].startswith(prefix)]
+    prefixes = tuple(prefix.split(","))
+    mine = [h for h in hits if h["name"].startswith(prefixes)]
     others = {}
     for h in hits:
-        if not h["name"].startswith(prefix):
+        if not h["name"].startswith(prefixes):
             others[h["name"]] = others.get(h["name"], 0) + 1
     total, nt = nontrivial_scenarios(traces)
     evs = list(events_of(traces))
@@ -177,7 +190,9 @@ def sync_level(scr, tier, prop, prefix, plan, replay_file=None):
             "scenarios": by_id, "trace_getter": getter, "samples": samples, "drift": ndrift,
             "evaluations": total, "distinct_nontrivial": nt,
             "rule": "scenarios = maximal behaviours of the bounded TLA+ model enumerated by TLC; non-trivial = the recorded trace contains at least one accepted controller write",
-            "exhaustive": exhaustive, "tlc_runs": tlc_runs, "extra": {"drift_examples": drift_ex}}
+            "exhaustive": exhaustive, "tlc_runs": tlc_runs,
+            "extra": {"drift_examples": drift_ex, "replay_wall_s": round(t_replay, 1), "trace_validation_wall_s": round(t_val, 1),
+                      "trace_lines": len(evs)}}
 
 
 # --------------------------------------------------------------------------------------
